@@ -143,6 +143,7 @@ type Exec struct {
 	typeCache map[string]types.Type
 	rawFuncs  map[string]string // raw SMT functions usable in contracts: name -> result type
 	mods      map[*ssa.Function]*modSet
+	cond      []condDecl // conditional prelude facts (smt when ...)
 	closures  map[string]*closureInfo
 	batchSeq  int
 	known     map[string]string // heap version "|" reference -> term stored there last
@@ -222,6 +223,33 @@ func (x *Exec) heap(st *State, name, sort string) string {
 	}
 	if t, ok := st.heaps[name]; ok {
 		return t
+	}
+	fr, pending := st.heaps["pending:"+name]
+	if _, all := st.heaps["pending:*"]; all && !pending {
+		fr, pending = "full", true
+	}
+	if pending {
+		// the heap was havocked (by a call or a loop) before it was first touched on this path: its current
+		// version must differ from the initial one that old() and other paths see
+		delete(st.heaps, "pending:"+name)
+		if old, ok := x.heapSort[name]; ok && old != sort {
+			panic(fmt.Sprintf("heap %s sort mismatch %s vs %s", name, old, sort))
+		}
+		x.heapSort[name] = sort
+		init := "|" + name + "!0|"
+		x.C.decl(fmt.Sprintf("(declare-const %s %s)", init, sort))
+		if strings.HasPrefix(name, "G_") {
+			x.globalInit(name, init)
+		}
+		x.closedness(name, init)
+		n := x.C.freshName(name)
+		st.def(fmt.Sprintf("(declare-const %s %s)", n, sort))
+		st.heaps[name] = n
+		if fr != "full" && strings.HasPrefix(sort, "(Array Int ") {
+			// frame: contents below the recorded allocation frontier are unchanged
+			st.assume(fmt.Sprintf("(forall ((r Int)) (! (=> (< r %s) (= (select %s r) (select %s r))) :pattern ((select %s r))))", fr, n, init, n))
+		}
+		return n
 	}
 	if old, ok := x.heapSort[name]; ok && old != sort {
 		panic(fmt.Sprintf("heap %s sort mismatch %s vs %s", name, old, sort))
@@ -321,11 +349,28 @@ func (x *Exec) setHeap(st *State, name, sort, term string) {
 func (x *Exec) havocHeap(st *State, name string) {
 	sort, ok := x.heapSort[name]
 	if !ok {
-		return // never read or written so far: its initial version is unconstrained anyway
+		// never read or written so far in this run: remember that the version this path sees from now on
+		// is not the initial one (materialised at the first access, see heap)
+		x.markPending(st, name, "full")
+		return
+	}
+	if _, touched := st.heaps[name]; !touched {
+		if _, pend := st.heaps["pending:"+name]; pend {
+			return
+		}
 	}
 	n := x.C.freshName(name)
 	st.def(fmt.Sprintf("(declare-const %s %s)", n, sort))
 	st.heaps[name] = n
+}
+
+// markPending records a havoc of a heap that has no version on this path yet. frontier is the allocation
+// frontier below which the contents are known to be unchanged, or "full". The weakest marker wins.
+func (x *Exec) markPending(st *State, name, frontier string) {
+	if cur, ok := st.heaps["pending:"+name]; ok && (cur == "full" || frontier != "full") {
+		return
+	}
+	st.heaps["pending:"+name] = frontier
 }
 
 // assumeTypeInv adds the type invariant of a value entering the state.
